@@ -1,7 +1,7 @@
 (* C10 - A dry run changes nothing and over-approximates the next build. *)
 From Verif Require Import Base.Prelude Base.Graph Model.Sorter Model.Expr Model.Engine Model.EngineRun.
 From Verif Require Import Proofs.GraphProofs Proofs.SorterProofs Proofs.EngineTask Proofs.EngineLoop
-     Proofs.EngineBuild Proofs.EngineDag Proofs.EngineRefute Proofs.EngineHistory.
+     Proofs.EngineBuild Proofs.EngineDag Proofs.EngineRefute Proofs.EngineHistory Proofs.EngineDry.
 
 (* a dry-run build starts no task function and leaves every file as it was (the model's
    file map is exactly the set of regular files of the project outside .pytask) *)
@@ -51,9 +51,22 @@ Theorem C10_dry_run_does_not_interfere : forall is_word lower body c ts faults p
   = build is_word lower body c' ts' faults' pref' w.
 Proof. exact dry_run_does_not_interfere. Qed.
 
+(* over-approximation, the step of the induction (PARTIAL: the lockstep induction over the two
+   runs is not done): a task whose function the real build starts, and whose neighbours look to
+   the real build as they looked to the dry run, was announced by the dry run *)
+Theorem C10_dry_announces_local : forall body c cd E dyn_d dyn_r desel w wr t f,
+  dry_run c = false -> dry_run cd = true -> force cd = force c ->
+  skipflag t dyn_d desel = skipflag t dyn_r desel ->
+  has_dyn MAncFailed (tid t) dyn_d = false ->
+  same_view E w wr t ->
+  r_events (run_task body c E dyn_r desel wr t f) <> [] ->
+  r_out (run_task body cd E dyn_d desel w t f) = OWould.
+Proof. exact dry_announces_local. Qed.
+
 Print Assumptions C10_dry_run_inert.
 Print Assumptions C10_dry_run_inert_rejected.
 Print Assumptions C10_dry_task_silent.
 Print Assumptions C10_dry_db_only_persist.
 Print Assumptions C10_dry_run_world_unchanged.
 Print Assumptions C10_dry_run_does_not_interfere.
+Print Assumptions C10_dry_announces_local.
